@@ -184,6 +184,9 @@ class IdleMomentsGauge:
                         len(op.qubits) == 1
                         and tags_to_ignore.isdisjoint(op.tags)
                         and op.gate is not None
+                        # merging multiplies matrices: measurements, channels and symbolic gates
+                        # bound the idle window but cannot absorb the gauge
+                        and protocols.has_unitary(op)
                     )
                     for q in op.qubits:
                         active_moments[q].append((m_id, is_mergeable))
